@@ -23,7 +23,12 @@ func main() {
 	replay := flag.String("replay", "", "replay a single case file")
 	out := flag.String("out", "", "result file (default stdout)")
 	workers := flag.Int("workers", 16, "parallelism")
+	dump := flag.String("dump", "", "write case tapes to this file and exit")
 	flag.Parse()
+	if *dump != "" {
+		dumpTapes(*prop, *tier, *seed, *dump)
+		return
+	}
 	p, ok := core.Registry[*prop]
 	if !ok {
 		fmt.Fprintln(os.Stderr, "unknown property", *prop)
